@@ -12,7 +12,7 @@ import z3
 from .values import Panic, Unsupported
 
 _SPEC = None
-SHARD_BUDGET_S = 8.0
+SHARD_BUDGET_S = 0.5
 
 
 class Result:
@@ -102,14 +102,46 @@ def explore_prefixes(spec, it, prefixes, res, budget_s=None, t0=None):
     return []
 
 
+_SPEC_KEY = None
+_POOL = None
+_POOL_JOBS = None
+_POOL_GEN = 0
+
+
 def _worker_init(spec_factory, args):
-    global _SPEC
-    _SPEC = spec_factory(*args)
-    _SPEC._it = _SPEC.make_interp()
+    pass
 
 
-def _worker_run(prefix):
-    spec = _SPEC; it = spec._it
+def _ensure_spec(key, spec_factory, args):
+    global _SPEC, _SPEC_KEY
+    if _SPEC_KEY != key:
+        _SPEC = spec_factory(*args)
+        _SPEC._it = _SPEC.make_interp()
+        _SPEC_KEY = key
+    return _SPEC
+
+
+def shared_pool(jobs):
+    """one fork pool per process, created lazily AFTER the MIR world is loaded (workers inherit it) and re-created
+    when the world generation changes (explore.reset_pool() must be called after loading another World)"""
+    global _POOL, _POOL_JOBS
+    if _POOL is None or _POOL_JOBS != jobs:
+        if _POOL is not None:
+            _POOL.terminate()
+        _POOL = mp.get_context('fork').Pool(jobs)
+        _POOL_JOBS = jobs
+    return _POOL
+
+
+def reset_pool():
+    global _POOL
+    if _POOL is not None:
+        _POOL.terminate(); _POOL = None
+
+
+def _worker_run(task):
+    key, spec_factory, args, prefix = task
+    spec = _ensure_spec(key, spec_factory, args); it = spec._it
     res = Result()
     q0, s0, f0, st0 = it.nq, it.solver_s, it.nforks, it.steps
     left = []
@@ -131,7 +163,7 @@ def explore(spec_factory, args=(), jobs=None, split_target=None, progress=None, 
     it = spec.make_interp()
     total = Result()
     # breadth phase in the parent: expand until there are enough independent prefixes
-    split_target = split_target or jobs * 6
+    split_target = split_target or jobs
     frontier = collections.deque([[]])
     done_in_parent = 0
     while frontier and len(frontier) < split_target and done_in_parent < (split_target if jobs > 1 else 10 ** 9):
@@ -152,12 +184,15 @@ def explore(spec_factory, args=(), jobs=None, split_target=None, progress=None, 
             r.executed = set(it.executed)
             total.merge(r, spec)
         else:
-            ctx = mp.get_context('fork')
-            with ctx.Pool(jobs, initializer=_worker_init, initargs=(spec_factory, args)) as pool:
+            global _POOL_GEN
+            _POOL_GEN += 1
+            key = (_POOL_GEN, getattr(spec_factory, '__name__', '?'), repr(args))
+            pool = shared_pool(jobs)
+            if True:
                 queue = collections.deque(prefixes); pending = []; n = 0
                 while queue or pending:
                     while queue and len(pending) < jobs * 2:
-                        pending.append(pool.apply_async(_worker_run, (queue.popleft(),)))
+                        pending.append(pool.apply_async(_worker_run, ((key, spec_factory, args, queue.popleft()),)))
                     still = []
                     got = False
                     for ar in pending:
@@ -171,7 +206,7 @@ def explore(spec_factory, args=(), jobs=None, split_target=None, progress=None, 
                     pending = still
                     if timeout_s is not None and time.time() - t0 > timeout_s:
                         complete = False
-                        pool.terminate()
+                        reset_pool()
                         break
                     if not got:
                         time.sleep(0.02)
